@@ -131,11 +131,11 @@ fn apply_interner<T: Val>(it: &mut Interner<T>, don: &Interner<T>, op: &str, arg
             let i = arg.as_u64().unwrap() as usize;
             // a Symbol can only be obtained from an interner: take the i-th symbol of a large donor
             let key = don.elements()[i].clone();
-            let sym = don.get(&key).unwrap();
             if don.get(&key).map(|s| s.into_untracked().id as usize) != Some(i) {
                 // the donor's own `get` misbehaves: report as the observable result
-                return json!(["resolve", i, "donor get() returned a wrong symbol"]);
+                return json!(["resolve", i, ["?donor-get-returned-a-wrong-symbol"]]);
             }
+            let sym = don.get(&key).unwrap();
             let r = it.resolve(sym).map(|t| t.name());
             json!(["resolve", i, r.into_iter().collect::<Vec<_>>()])
         }
@@ -237,7 +237,7 @@ fn replay_builder(i: usize, t: &Value, out: &mut Out, bad: &mut u64, n: &mut u64
 fn record(seed: u64, walks: usize, len: usize, path: &str) {
     let mut rng = StdRng::seed_from_u64(seed);
     let mut out = Out::create(path);
-    let names: Vec<String> = (0..24).map(|i| format!("v{i}")).collect();
+    let names: Vec<String> = (0..96).map(|i| format!("v{i}")).collect();
     for w in 0..walks {
         let kind = ["string", "rev", "body", "builder", "body", "builder"][w % 6];
         set_near(w % 6 >= 4); // Type-valued walks alternate between unrelated bodies and near misses
@@ -250,7 +250,8 @@ fn record(seed: u64, walks: usize, len: usize, path: &str) {
         let mut ib = Interner::<Body>::new();
         let mut bld = PortableRegistryBuilder::new();
         // skew towards a small working set so that hits are common
-        let k = rng.gen_range(2..=names.len());
+        // ... and in a third of the walks a large one, so that the table grows well past small-table sizes
+        let k = if rng.gen_bool(0.3) { rng.gen_range(33..=names.len()) } else { rng.gen_range(2..=24) };
         for _ in 0..len {
             let v = json!(names[rng.gen_range(0..k)]);
             let i = json!(rng.gen_range(0..(k + 2)));
